@@ -276,7 +276,7 @@ def unanimity_case(ctx, n: int) -> None:
 
 def gen_game(rng, n):
     size = 1 << n
-    fam = rng.choice(["int", "dyadic", "float", "negative", "big", "sparse", "offset", "offset_debt"])
+    fam = rng.choice(["int", "dyadic", "float", "negative", "big", "sparse", "offset", "offset_debt", "minor_player"])
     if fam == "int":
         v = [float(rng.randint(-9, 9)) for _ in range(size)]
     elif fam == "dyadic":
@@ -291,6 +291,11 @@ def gen_game(rng, n):
         base = 1e6 if fam == "offset" else -1e7
         w = [rng.uniform(0.1, 3) for _ in range(n)]
         v = [base + sum(w[i] for i in members(s)) + (rng.random() if rng.random() < 0.3 else 0.0) for s in range(size)]
+    elif fam == "minor_player":
+        # one player worth nothing alone who adds a few units to coalitions worth ~1e6 (not a null player!)
+        i = rng.randrange(n)
+        w = {t: (0.0 if t == 0 else 1e6 * rng.randint(1, 9) + rng.uniform(0, 3)) for t in range(size) if not t >> i & 1}
+        v = [w[s & ~(1 << i)] + (rng.uniform(0.5, 3) if (s >> i & 1 and s != 1 << i) else 0.0) for s in range(size)]
     elif fam == "big":
         v = [rng.uniform(-1e6, 1e6) for _ in range(size)]
     else:
